@@ -5,6 +5,7 @@ package gogen
 // Constant operator expressions through the real builder API (C01-K8, C02a, C03-T1, C04).
 
 import (
+	"go/ast"
 	"go/constant"
 	"go/token"
 	"go/types"
@@ -439,4 +440,225 @@ func VerifH_K_shiftcount() {
 		vp.Assert("C01.shiftcount.sound."+verifReasons[reason], class != vp.NoPanic)
 	}
 	vp.Cover("ALL.shiftcount.accepted", class == vp.NoPanic)
+}
+
+// ---------------------------------------------------------------------------
+// constant-capable builtins: min, max, len, cap, complex, real, imag
+
+func verifCallBuiltin(name string, args []*Element) (class int, ret *Element) {
+	pkg := verifNewPkg()
+	cb := pkg.CB()
+	class = vp.Try(func() {
+		cb.Val(pkg.Builtin().Ref(name))
+		for _, a := range args {
+			cb.Val(a)
+		}
+		cb.Call(len(args))
+		ret = cb.InternalStack().Pop()
+	})
+	return
+}
+
+func VerifH_K_minmax() {
+	name := []string{"min", "max"}[vp.Choose("fn", 2)]
+	n := 2
+	kinds := []types.BasicKind{types.UntypedInt, types.UntypedFloat, types.Int8, types.UntypedString}
+	if vp.Thorough() {
+		n = 2 + vp.Choose("extra", 2)
+		kinds = []types.BasicKind{types.UntypedInt, types.UntypedFloat, types.UntypedRune, types.Int8, types.Uint64, types.UntypedString}
+	}
+	ops := make([]verifOperand, n)
+	var elems []*Element
+	for i := range ops {
+		ops[i] = verifChooseOperand("a"+string(rune('0'+i)), kinds)
+		elems = append(elems, verifElem("a"+string(rune('0'+i)), ops[i]))
+	}
+	// spec: operands are matched pairwise like a binary operator on ordered types; the result is the extreme value
+	reason := verifOK
+	acc := ops[0]
+	for i := 1; i < n && reason == verifOK; i++ {
+		r, k, av, bv := verifMatch(acc, ops[i])
+		reason = r
+		if r != verifOK {
+			break
+		}
+		if !verifOpDefined(token.LSS, k) {
+			reason = verifRejOpUndef
+			break
+		}
+		pick := constant.Compare(bv, token.LSS, av)
+		if name == "max" {
+			pick = constant.Compare(bv, token.GTR, av)
+		}
+		v := av
+		if pick {
+			v = bv
+		}
+		acc = verifOperand{typed: !verifIsUntypedKind(k), kind: k, val: v}
+	}
+	if n == 1 && !verifOpDefined(token.LSS, acc.kind) {
+		reason = verifRejOpUndef
+	}
+	class, ret := verifCallBuiltin(name, elems)
+	anyTyped, anyUntyped, anyStr, differ := 0, 0, 0, 0
+	for i := range ops {
+		if ops[i].typed {
+			anyTyped = 1
+		} else {
+			anyUntyped = 1
+		}
+		if verifIsStrKind(ops[i].kind) {
+			anyStr = 1
+		}
+		if ops[i].kind != ops[0].kind {
+			differ = 1
+		}
+	}
+	vp.Fact("anytyped", anyTyped)
+	vp.Fact("anyuntyped", anyUntyped)
+	vp.Fact("anystring", anyStr)
+	vp.Fact("kindsdiffer", differ)
+	verifCheckResult("minmax", reason, acc, class, ret)
+	if !vp.Symbolic() {
+		src := name + "("
+		for i, o := range ops {
+			if i > 0 {
+				src += ", "
+			}
+			src += verifOperandSrc(o)
+		}
+		verifCrossCheck("spec.minmax", src+")", reason == verifOK, acc)
+	}
+}
+
+func VerifH_K_lencap() {
+	name := []string{"len", "cap"}[vp.Choose("fn", 2)]
+	var arg *Element
+	wantConst := false
+	var want int64
+	n := int64(vp.Choose("n", 3) * 5)
+	switch vp.Choose("arg", 5) {
+	case 0: // constant string
+		s := vp.Pick("s", "", "a", "héllo")
+		arg = &Element{Val: &ast.BasicLit{Kind: token.STRING, Value: `"s"`}, Type: types.Typ[types.UntypedString], CVal: constant.MakeString(s)}
+		wantConst, want = name == "len", int64(len(s))
+	case 1: // array value
+		arg = &Element{Val: &ast.Ident{Name: "arr"}, Type: types.NewArray(types.Typ[types.Int], n)}
+		wantConst, want = true, n
+	case 2: // pointer to array
+		arg = &Element{Val: &ast.Ident{Name: "parr"}, Type: types.NewPointer(types.NewArray(types.Typ[types.Int], n))}
+		wantConst, want = true, n
+	case 3: // slice: not constant
+		arg = &Element{Val: &ast.Ident{Name: "sl"}, Type: types.NewSlice(types.Typ[types.Int])}
+	case 4: // string variable: not constant
+		arg = &Element{Val: &ast.Ident{Name: "str"}, Type: types.Typ[types.String]}
+	}
+	class, ret := verifCallBuiltin(name, []*Element{arg})
+	vp.Assert("C17.lencap.nofault", class != vp.FaultPanic)
+	if class != vp.NoPanic {
+		return
+	}
+	vp.Assert("C03.lencap.type", types.Identical(ret.Type, types.Typ[types.Int]))
+	if wantConst {
+		vp.Assert("C04.lencap.const", ret.CVal != nil && constant.Compare(ret.CVal, token.EQL, constant.MakeInt64(want)))
+	} else {
+		vp.Assert("C04.lencap.notconst", ret.CVal == nil)
+	}
+}
+
+func VerifH_K_complex() {
+	re := verifChooseOperand("re", []types.BasicKind{types.UntypedInt, types.UntypedFloat})
+	im := verifChooseOperand("im", []types.BasicKind{types.UntypedInt, types.UntypedFloat, types.UntypedRune})
+	class, ret := verifCallBuiltin("complex", []*Element{verifElem("re", re), verifElem("im", im)})
+	vp.Assert("C17.complex.nofault", class != vp.FaultPanic)
+	vp.Assert("C02.complex.accepted", class == vp.NoPanic)
+	if class != vp.NoPanic {
+		return
+	}
+	vp.Assert("C04.complex.hasval", ret.CVal != nil)
+	if ret.CVal != nil {
+		vp.Assert("C04.complex.real", verifConstEq(constant.Real(ret.CVal), re.val))
+		vp.Assert("C04.complex.imag", verifConstEq(constant.Imag(ret.CVal), im.val))
+	}
+	vp.Assert("C03.complex.type", types.Identical(ret.Type, types.Typ[types.UntypedComplex]))
+	// real/imag of the folded value
+	which := []string{"real", "imag"}[vp.Choose("part", 2)]
+	c := &Element{Val: &ast.Ident{Name: "c"}, Type: types.Typ[types.UntypedComplex], CVal: ret.CVal}
+	class2, part := verifCallBuiltin(which, []*Element{c})
+	vp.Assert("C17.realimag.nofault", class2 != vp.FaultPanic)
+	if class2 == vp.NoPanic {
+		want := re.val
+		if which == "imag" {
+			want = im.val
+		}
+		vp.Assert("C04.realimag.value", part.CVal != nil && verifConstEq(part.CVal, want))
+		vp.Assert("C03.realimag.type", types.Identical(part.Type, types.Typ[types.UntypedFloat]))
+	}
+}
+
+// ---------------------------------------------------------------------------
+// constant conversions T(c)
+
+func VerifH_K_convert() {
+	targets := []types.BasicKind{types.Int8, types.Uint8, types.Int, types.Uint64, types.String, types.Bool}
+	if vp.Thorough() {
+		targets = []types.BasicKind{types.Int, types.Int8, types.Int16, types.Int32, types.Int64, types.Uint, types.Uint8, types.Uint16, types.Uint32, types.Uint64, types.Uintptr, types.String, types.Bool}
+	}
+	tk := targets[vp.Choose("T", len(targets))]
+	x := verifChooseOperand("x", []types.BasicKind{types.UntypedInt, types.UntypedRune, types.UntypedFloat, types.UntypedBool, types.UntypedString})
+	vp.Fact("tkind", int(tk))
+	verifOperandFacts("x", x)
+	pkg := verifNewPkg()
+	cb := pkg.CB()
+	var ret *Element
+	class := vp.Try(func() {
+		cb.Typ(types.Typ[tk]).Val(verifElem("x", x)).Call(1)
+		ret = cb.InternalStack().Pop()
+	})
+	vp.Assert("C17.convert.nofault", class != vp.FaultPanic)
+	if class == vp.FaultPanic {
+		return
+	}
+	accepted := class == vp.NoPanic
+	// spec
+	valid := false
+	var val constant.Value
+	intToString := false
+	switch {
+	case tk >= types.Int && tk <= types.Uintptr:
+		if verifUntypedRank(x.kind) > 0 && verifRepresentable(x.val, tk) {
+			valid, val = true, constant.ToInt(x.val)
+		}
+	case tk == types.String:
+		if x.kind == types.UntypedString {
+			valid, val = true, x.val
+		} else if x.kind == types.UntypedInt || x.kind == types.UntypedRune {
+			valid, intToString = true, true
+		}
+	case tk == types.Bool:
+		if x.kind == types.UntypedBool {
+			valid, val = true, x.val
+		}
+	}
+	if !valid {
+		vp.Assert("C01.convert.sound", !accepted)
+		return
+	}
+	vp.Assert("C02.convert.complete", accepted)
+	if !accepted {
+		return
+	}
+	vp.Assert("C03.convert.type", types.Identical(ret.Type, types.Typ[tk]))
+	vp.Assert("C04.convert.hasval", ret.CVal != nil)
+	if ret.CVal == nil {
+		return
+	}
+	if intToString {
+		vp.Assert("C04.convert.stringkind", ret.CVal.Kind() == constant.String)
+	} else {
+		vp.Assert("C04.convert.value", verifConstEq(ret.CVal, val))
+	}
+	if !vp.Symbolic() && !intToString {
+		verifCrossCheck("spec.convert", types.Typ[tk].Name()+"("+verifOperandSrc(x)+")", valid, verifOperand{typed: true, kind: tk, val: val})
+	}
 }
